@@ -5,9 +5,8 @@
 import Driver.Common
 import GivaroModel.Model.Poly
 import GivaroModel.Spec.PolySpec
--- @driver-mode poly Driver.Poly.polyLine
-namespace Driver.Poly
-open Driver
+-- @driver-mode poly Driver.polyLine
+namespace Driver
 open Givaro.Spec.Poly
 
 /-- the operations of a coefficient field + the wire format of its elements -/
@@ -71,7 +70,7 @@ def parsePoly (s : String) : Option (List K) :=
 
 def renderPoly (P : List K) : String := "[" ++ String.intercalate "," (P.map FieldIO.render) ++ "]"
 
-/-- polyVerdict of one line: precondition, spec accepted the implementation, model agrees with the implementation -/
+/-- verdict of one line: precondition, spec accepted the implementation, model agrees with the implementation -/
 structure V where
   pre : Bool := true
   spec : Bool
@@ -160,7 +159,7 @@ def polyCase (thr : Nat) (key : String) (a : Array String) (r : Array String) : 
   | "stdmul" => do let A ← P 0; let B ← P 1; pure (exact1 (← RP 0) (smul A B) (some (Givaro.Model.Poly.stdmul A B)))
   | "karamul" => do let A ← P 0; let B ← P 1; pure (exact1 (← RP 0) (smul A B) (some (Givaro.Model.Poly.karamul thr A B)))
   | "mulin" => do let A ← P 0; let B ← P 1; pure (exact1 (← RP 0) (smul A B) (some (Givaro.Model.Poly.mulin thr A B)))
-  | "sqr" => do let A ← P 0; pure (exact1 (← RP 0) (smul A A))
+  | "sqr" => do let A ← P 0; pure (exact1 (← RP 0) (smul A A) (some (Givaro.Model.Poly.sqr thr A)))
   | "multr" => do
     let A ← P 0; let B ← P 1; let lo ← N 2; let hi ← N 3
     if lo < 0 || hi < lo then pure { pre := false, spec := true } else
@@ -205,7 +204,15 @@ def polyCase (thr : Nat) (key : String) (a : Array String) (r : Array String) : 
   | "gcdext" => do
     let A ← P 0; let B ← P 1; let d ← RP 0; let u ← RP 1; let v ← RP 2
     if (norm A).isEmpty && (norm B).isEmpty then pure { pre := false, spec := true } else   -- needs the inverse of zero
-    pure { spec := chkGcdExt A B d.1 u.1 v.1 && degOk d && degOk u && degOk v }
+    -- the model of the Euclid loop, run with the reference quotient in place of `div` (the quotient is unique)
+    let m := Givaro.Model.Poly.gcdext thr (fun F G => (sdivmod F G).1) (A.length + B.length + 2) A B
+    let mOk := match m with
+      | some (f, s, t) => eqv f d.1 && eqv s u.1 && eqv t v.1
+      | none => false
+    pure { spec := chkGcdExt A B d.1 u.1 v.1 && degOk d && degOk u && degOk v, model := mOk,
+           info := match m with
+             | some (f, s, t) => renderPoly (norm f) ++ " " ++ renderPoly (norm s) ++ " " ++ renderPoly (norm t)
+             | none => "loop-did-not-finish" }
   | "lcm" => do let A ← P 0; let B ← P 1; let d ← RP 0; pure { spec := chkLcm A B d.1 && degOk d }
   | "invmod" => do
     let A ← P 0; let B ← P 1; let u ← RP 0
@@ -277,7 +284,7 @@ def polyCase (thr : Nat) (key : String) (a : Array String) (r : Array String) : 
     pure { spec := val == e && q.1 = norm q.1 && degOk q }
   | _ => none
 
-def polyVerdict (thr : Nat) (key : String) (a r : Array String) (line : String) : String :=
+def verdict (thr : Nat) (key : String) (a r : Array String) (line : String) : String :=
   if r == #["CRASH"] || r == #["EXC"] || r == #["NOFUNC"] || r == #["NOFIELD"] then "BAD result | " ++ line else
   match polyCase (K := K) thr key a r with
   | none => "BAD parse | " ++ line
@@ -300,12 +307,12 @@ def polyLine (line : String) : String :=
       match (if t.startsWith "t:" then parseHexNat (t.drop 2).toString else none) with
       | none => "BAD threshold | " ++ line
       | some thr =>
-        if f == "Q" then polyVerdict (K := Rat) thr key rest.toArray res.toArray line
+        if f == "Q" then verdict (K := Rat) thr key rest.toArray res.toArray line
         else if f.startsWith "p:" || f.startsWith "P:" then
           match parseHexNat (f.drop 2).toString with
-          | some p => if p < 2 then "BAD field | " ++ line else polyVerdict (K := Zp p) thr key rest.toArray res.toArray line
+          | some p => if p < 2 then "BAD field | " ++ line else verdict (K := Zp p) thr key rest.toArray res.toArray line
           | none => "BAD field | " ++ line
         else "BAD field | " ++ line
     | _ => "BAD args | " ++ line
 
-end Driver.Poly
+end Driver
